@@ -25,6 +25,7 @@ checks = {
         pid='C02', doc='C02 - all reports of the outcome of a terminated process agree and waiters are released.',
         inv=['C02_FutureNotEarly', 'C02_Agree', 'C02_OneNotification', 'C02_ClosedOnce', 'C02_TaskReturns'], prop=[],
         body='''    alpha = ['kill', 'pause', 'play', 'resume', 'cancel', 'cbok', 'cbraise', 'fail']
+    tc_alpha = ['taskcancel', 'pause', 'play', 'kill', 'fail', 'resume']
     kill_plans = core_check.reentrant_plans(['step', 'L_running', 'L_waiting', 'L_paused', 'L_played', 'L_output'], [('kill', 'k2'), ('pause', 'p2')])
     down = core_model.family(['P12', 'P02'], out_missing=['P12', 'P02'])
     pe = core_model.plan_entry
@@ -32,22 +33,27 @@ checks = {
     if tier == 'quick':
         mc = [dict(name='C02_env', progs=C.fam(C.ALL), plans=[[]], alphabet=alpha, k=3, invariants=INV),
               dict(name='C02_reentrant', progs=C.fam(C.SMALL), plans=kill_plans, alphabet=alpha, k=1, invariants=INV),
-              dict(name='C02_downgrade', progs=down, plans=[[]], alphabet=alpha, k=2, invariants=INV)]
+              dict(name='C02_downgrade', progs=down, plans=[[]], alphabet=alpha, k=2, invariants=INV),
+              dict(name='C02_task_cancelled', progs=C.fam(['P03', 'P04', 'P05']), plans=[[]], alphabet=tc_alpha, k=4, invariants=INV)]
         rp = [dict(name='C02_env', progs=C.fam(C.ALL), plans=[[]], alphabet=alpha, k=2),
               dict(name='C02_reentrant', progs=C.fam(['P03', 'P05']), plans=kill_plans, alphabet=alpha, k=1),
               dict(name='C02_downgrade', progs=down, plans=[[]], alphabet=alpha, k=2),
               dict(name='C02_listener_raises', progs=C.fam(['P02', 'P03', 'P08']), plans=lfaults, alphabet=['kill', 'pause', 'play'], k=1),
               # conformance only: close() by the user is outside the property's quantifier, but it is modelled
-              dict(name='C02_user_close', progs=C.fam(['P01', 'P03', 'P04']), plans=[[]], alphabet=['close', 'kill', 'pause', 'play'], k=2)]
+              dict(name='C02_user_close', progs=C.fam(['P01', 'P03', 'P04']), plans=[[]], alphabet=['close', 'kill', 'pause', 'play'], k=2),
+              # the owner of the stepping task cancels it while it is parked at the pause gate (pause, taskcancel, then kill / fail / play)
+              dict(name='C02_task_cancelled', progs=C.fam(['P03', 'P04', 'P05']), plans=[[]], alphabet=tc_alpha, k=4)]
     else:
         mc = [dict(name='C02_env', progs=C.fam(C.ALL), plans=[[]], alphabet=alpha, k=4, invariants=INV),
               dict(name='C02_reentrant', progs=C.fam(C.ALL), plans=kill_plans, alphabet=alpha, k=2, invariants=INV),
-              dict(name='C02_downgrade', progs=down, plans=[[]], alphabet=alpha, k=3, invariants=INV)]
+              dict(name='C02_downgrade', progs=down, plans=[[]], alphabet=alpha, k=3, invariants=INV),
+              dict(name='C02_task_cancelled', progs=C.fam(C.ALL), plans=[[]], alphabet=tc_alpha + ['cancel'], k=5, invariants=INV)]
         rp = [dict(name='C02_env', progs=C.fam(C.ALL), plans=[[]], alphabet=alpha, k=3),
               dict(name='C02_reentrant', progs=C.fam(C.SMALL), plans=kill_plans, alphabet=alpha, k=1),
               dict(name='C02_downgrade', progs=down, plans=[[]], alphabet=alpha, k=3),
               dict(name='C02_listener_raises', progs=C.fam(C.ALL), plans=lfaults, alphabet=['kill', 'pause', 'play', 'resume'], k=2),
-              dict(name='C02_user_close', progs=C.fam(C.ALL), plans=[[]], alphabet=['close', 'kill', 'pause', 'play', 'resume', 'fail'], k=3)]''',
+              dict(name='C02_user_close', progs=C.fam(C.ALL), plans=[[]], alphabet=['close', 'kill', 'pause', 'play', 'resume', 'fail'], k=3),
+              dict(name='C02_task_cancelled', progs=C.fam(C.ALL), plans=[[]], alphabet=tc_alpha + ['cancel'], k=4)]''',
         extra_assume=['three listeners are attached (one recording, two counting): every listener must be told each event exactly once even when another listener raises', 'the five accessor families (future, result, successful/is_successful, killed/killed_msg, exception) are read from the real process after every action and must agree with each other and with the specification state'],
         rule='every interleaving of <=K control requests (incl. kill while paused, during a step, from a listener) with every program; accessor agreement, notification/cleanup counts and stepping-task completion compared after every action'),
     'c04': dict(
